@@ -630,7 +630,60 @@ func tryReplay(o *Obligation, repo, scratch string) (string, bool) {
 	}
 	sb.WriteString("\tfmt.Printf(\"VERIF-REPLAY outcome=returned\\n\")\n}\n")
 	testSrc := sb.String()
-	// write files + overlay
+	res := runReplayTest(c, repo, scratch, testSrc)
+	reproduced := replayReproduced(o, res)
+	var rep strings.Builder
+	fmt.Fprintf(&rep, "solver model (inputs):\n%s\n", firstLines(out, 30))
+	for _, w := range mc.warn {
+		fmt.Fprintf(&rep, "note: %s\n", w)
+	}
+	fmt.Fprintf(&rep, "\ngenerated test (run in the package directory with go test -tags verif -overlay ... -run '^TestVerifReplay$'):\n%s\n", testSrc)
+	fmt.Fprintf(&rep, "test output:\n%s\n", firstLines(res, 40))
+	if !reproduced {
+		// The model's inputs did not reproduce (callee results and loop states in the model are abstract).
+		// Second stage: search a small fixed corpus of inputs for one that makes the real code fail the same way.
+		if src2 := corpusTest(o, argExprs, gsets, ptrHelpers); src2 != "" {
+			res2 := runReplayTest(c, repo, scratch, src2)
+			if replayReproduced(o, res2) {
+				reproduced = true
+				fmt.Fprintf(&rep, "\nmodel inputs did not reproduce; corpus search over concrete inputs found a failing input:\n%s\n", firstLines(grepLines(res2, "VERIF-REPLAY"), 12))
+				fmt.Fprintf(&rep, "\ncorpus test:\n%s\n", src2)
+			} else {
+				fmt.Fprintf(&rep, "\ncorpus search over concrete inputs: no failing input found\n%s\n", firstLines(grepLines(res2, "VERIF-REPLAY|FAIL|panic"), 6))
+			}
+		}
+	}
+	fmt.Fprintf(&rep, "REPRODUCED=%v\n", reproduced)
+	return rep.String(), reproduced
+}
+
+func grepLines(s, pat string) string {
+	var out []string
+	alts := strings.Split(pat, "|")
+	for _, l := range strings.Split(s, "\n") {
+		for _, a := range alts {
+			if strings.Contains(l, a) {
+				out = append(out, l)
+				break
+			}
+		}
+	}
+	return strings.Join(out, "\n")
+}
+
+func replayReproduced(o *Obligation, res string) bool {
+	switch o.Kind {
+	case "post":
+		return strings.Contains(res, "=false //") || strings.Contains(res, "outcome=panic")
+	case "frame-heap", "frame-global":
+		return strings.Contains(res, "outcome=modified")
+	default:
+		return strings.Contains(res, "outcome=panic") || strings.Contains(res, "panic:")
+	}
+}
+
+func runReplayTest(c *FnCtx, repo, scratch, testSrc string) string {
+	pkg := c.eng.ld.Pkg
 	testFile := filepath.Join(scratch, fmt.Sprintf("replay_%d_test.go", time.Now().UnixNano()))
 	os.WriteFile(testFile, []byte(testSrc), 0o644)
 	ghostFile := filepath.Join(scratch, "ghost_gen.go")
@@ -640,13 +693,13 @@ func tryReplay(o *Obligation, repo, scratch string) (string, bool) {
 		pkgDir = filepath.Join(repo, rel)
 	}
 	ov := map[string]map[string]string{"Replace": {
-		filepath.Join(pkgDir, "zz_verif_replay_test.go"):  testFile,
+		filepath.Join(pkgDir, "zz_verif_replay_test.go"):     testFile,
 		filepath.Join(pkgDir, "zz_verif_ghost_generated.go"): ghostFile,
 	}}
 	ovb, _ := json.Marshal(ov)
-	ovFile := filepath.Join(scratch, "overlay.json")
+	ovFile := filepath.Join(scratch, fmt.Sprintf("overlay-%d.json", time.Now().UnixNano()))
 	os.WriteFile(ovFile, ovb, 0o644)
-	ctx, cancel := context.WithTimeout(context.Background(), 120*time.Second)
+	ctx, cancel := context.WithTimeout(context.Background(), 180*time.Second)
 	defer cancel()
 	cmd := exec.CommandContext(ctx, "go", "test", "-tags", "verif", "-overlay", ovFile, "-vet=off", "-count=1", "-v", "-timeout", "60s", "-run", "^TestVerifReplay$", ".")
 	cmd.Dir = pkgDir
@@ -655,23 +708,171 @@ func tryReplay(o *Obligation, repo, scratch string) (string, bool) {
 	cmd.Stdout = &buf
 	cmd.Stderr = &buf
 	cmd.Run()
-	res := buf.String()
-	reproduced := false
-	switch o.Kind {
-	case "post":
-		reproduced = strings.Contains(res, "=false //") || strings.Contains(res, "outcome=panic")
-	default:
-		reproduced = strings.Contains(res, "outcome=panic") || strings.Contains(res, "panic:")
+	return buf.String()
+}
+
+// ---- corpus search: concrete candidate inputs per parameter type ----
+
+func corpusFor(t types.Type, qual types.Qualifier) []string {
+	ts := types.TypeString(t, qual)
+	sample := `map[string]interface{}{"a": map[string]interface{}{"b": "x", "-id": "1", "#text": "t", "c": []interface{}{map[string]interface{}{"d": "1"}, "s", float64(2)}}, "": "e", "n": nil, "l": []interface{}{"p", "q"}, "k": "v", "f": float64(1.5), "t": true}`
+	switch u := t.Underlying().(type) {
+	case *types.Basic:
+		switch {
+		case u.Info()&types.IsString != 0:
+			var out []string
+			for _, s := range []string{"", "a", "a.b", "a.c", "a.b.x", "k", "l", "*", "a.*", "a.c[0]", "a.c[9]", "a.c[0].d", "l[1]", ".", "a.", ".a", "a..b", "[", "a[", "a[]", "a[x]", "a[9223372036854775807]", "a[2147483647]", ":", ":x", "a:", "a:b", "a:b:c", "a:b:bool", "a:1:float", "!a:*", "a:b:c:d", "k:v", "-id:1", "x:y", "k:new", "b:new", "a.b:q", "n", "n.x", "k.x", "t.x", "#text", "-id"} {
+				out = append(out, ts+"("+strconv.Quote(s)+")")
+			}
+			return out
+		case u.Info()&types.IsBoolean != 0:
+			return []string{ts + "(false)", ts + "(true)"}
+		case u.Info()&types.IsInteger != 0:
+			return []string{ts + "(0)", ts + "(1)", ts + "(-1)", ts + "(2)", ts + "(64)"}
+		case u.Info()&types.IsFloat != 0:
+			return []string{ts + "(0)", ts + "(1.5)"}
+		}
+	case *types.Interface:
+		if u.NumMethods() == 0 {
+			return []string{"interface{}(" + sample + ")", "interface{}(nil)", `interface{}("s")`, `interface{}([]interface{}{"p", map[string]interface{}{"k": "v"}})`, "interface{}(float64(1))", `interface{}(map[string]interface{}{"k": "v"})`, `interface{}("k:v")`, `interface{}("k:v:bool")`, `interface{}(map[string]interface{}{})`, `interface{}(3)`}
+		}
+	case *types.Map:
+		if typeKey(u) == "map[string]interface{}" {
+			return []string{ts + "(" + sample + ")", ts + "(nil)", ts + "{}", ts + `{"k": "v"}`, ts + `{"": "x"}`, ts + `{"!k": "*"}`, ts + `{"a": map[string]interface{}{"k": "v"}}`}
+		}
+	case *types.Slice:
+		if isByte(u.Elem()) {
+			return []string{ts + `("")`, ts + `("<a>x</a>")`, ts + `("{\"a\":1}")`, ts + `("</a>")`, ts + `("}")`, ts + `("<a>h<b/></a>")`, ts + `("<a><b>1</b><b>2</b></a>")`, ts + `("<a x=\"1\">t</a>")`, ts + `("[1,2]")`, ts + `("<a")`, ts + `("{\"a\":")`}
+		}
+		var out []string
+		out = append(out, ts+"(nil)")
+		for _, e := range corpusFor(u.Elem(), qual) {
+			out = append(out, ts+"{"+e+"}")
+			if len(out) > 48 {
+				break
+			}
+		}
+		el := corpusFor(u.Elem(), qual)
+		if len(el) >= 3 {
+			out = append(out, ts+"{"+el[1]+", "+el[2]+"}")
+		}
+		return out
 	}
-	var rep strings.Builder
-	fmt.Fprintf(&rep, "solver model (inputs):\n%s\n", firstLines(out, 30))
-	for _, w := range mc.warn {
-		fmt.Fprintf(&rep, "note: %s\n", w)
+	return nil
+}
+
+// corpusTest builds a test that tries combinations of corpus values for every parameter.
+func corpusTest(o *Obligation, modelArgs []string, gsets []string, ptrHelpers map[string]string) string {
+	c := o.Ctx
+	fn := c.top
+	pkg := c.eng.ld.Pkg
+	qual := types.RelativeTo(pkg)
+	var lists [][]string
+	total := 1
+	for i, p := range fn.Params {
+		vals := corpusFor(p.Type(), qual)
+		if len(vals) == 0 {
+			return ""
+		}
+		_ = i
+		lists = append(lists, vals)
+		total *= len(vals)
+		if total > 200000 {
+			return ""
+		}
 	}
-	fmt.Fprintf(&rep, "\ngenerated test (run in %s with go test -tags verif -overlay ... -run '^TestVerifReplay$'):\n%s\n", pkgDir, testSrc)
-	fmt.Fprintf(&rep, "test output:\n%s\n", firstLines(res, 40))
-	fmt.Fprintf(&rep, "REPRODUCED=%v\n", reproduced)
-	return rep.String(), reproduced
+	if len(lists) == 0 {
+		return ""
+	}
+	var sb strings.Builder
+	sb.WriteString("//go:build verif\n// +build verif\n\npackage " + pkg.Name() + "\n\nimport (\n\t\"fmt\"\n\t\"reflect\"\n\t\"testing\"\n)\n\nvar _ = reflect.DeepEqual\n\ntype verifOpaque int\n\n")
+	sig := fn.Signature
+	sb.WriteString("func TestVerifReplay(t *testing.T) {\n")
+	sb.WriteString(strings.Join(gsets, "\n") + "\n")
+	for i, l := range lists {
+		fmt.Fprintf(&sb, "\tmk%d := []func() %s{\n", i, types.TypeString(fn.Params[i].Type(), qual))
+		for _, v := range l {
+			fmt.Fprintf(&sb, "\t\tfunc() %s { return %s },\n", types.TypeString(fn.Params[i].Type(), qual), v)
+		}
+		sb.WriteString("\t}\n")
+	}
+	sb.WriteString("\ttried := 0\n")
+	for i := range lists {
+		fmt.Fprintf(&sb, "\tfor i%d := range mk%d {\n", i, i)
+	}
+	sb.WriteString("\t\ttried++\n\t\tif tried > 20000 { continue }\n")
+	sb.WriteString("\t\tfailed := func() (bad bool) {\n")
+	var names []string
+	for i := range lists {
+		fmt.Fprintf(&sb, "\t\t\tin%d := mk%d[i%d]()\n", i, i, i)
+		names = append(names, fmt.Sprintf("in%d", i))
+	}
+	var fmtArgs []string
+	for _, n := range names {
+		fmtArgs = append(fmtArgs, n)
+	}
+	fmt.Fprintf(&sb, "\t\t\tdefer func() {\n\t\t\t\tif r := recover(); r != nil {\n\t\t\t\t\tfmt.Printf(\"VERIF-REPLAY outcome=panic value=%%v inputs=%%#v\\n\", r, []interface{}{%s})\n\t\t\t\t\tbad = true\n\t\t\t\t}\n\t\t\t}()\n", strings.Join(fmtArgs, ", "))
+	call := ""
+	if sig.Recv() != nil {
+		call = fmt.Sprintf("%s.%s(%s)", names[0], fn.Name(), callArgs(sig, names[1:]))
+	} else {
+		call = fmt.Sprintf("%s(%s)", fn.Name(), callArgs(sig, names))
+	}
+	nres := sig.Results().Len()
+	var resNames []string
+	for i := 0; i < nres; i++ {
+		resNames = append(resNames, fmt.Sprintf("out%d", i))
+	}
+	var oldNames []string
+	evalPost := o.Kind == "post" && c.fc != nil
+	if evalPost {
+		for i, od := range c.fc.Olds {
+			if strings.Contains(od.Expr, "verif") {
+				evalPost = false
+				break
+			}
+			nm := fmt.Sprintf("old%d", i)
+			fmt.Fprintf(&sb, "\t\t\t%s := %s(%s)\n", nm, od.Fn, strings.Join(names, ", "))
+			oldNames = append(oldNames, nm)
+		}
+	}
+	if evalPost {
+		// preconditions must hold for the candidate
+		for _, rq := range c.fc.Requires {
+			if strings.Contains(rq.Expr, "verif") && !strings.Contains(rq.Expr, "verifForall") {
+				evalPost = false
+			}
+		}
+	}
+	if c.fc != nil {
+		for _, rq := range c.fc.Requires {
+			if strings.Contains(rq.Expr, "verif") && !strings.Contains(rq.Expr, "verifForall") {
+				continue
+			}
+			fmt.Fprintf(&sb, "\t\t\tif !%s(%s) { return false }\n", rq.Fn, strings.Join(names, ", "))
+		}
+	}
+	if nres > 0 {
+		sb.WriteString("\t\t\t" + strings.Join(resNames, ", ") + " := " + call + "\n")
+		sb.WriteString("\t\t\t_ = []interface{}{" + strings.Join(resNames, ", ") + "}\n")
+	} else {
+		sb.WriteString("\t\t\t" + call + "\n")
+	}
+	if evalPost {
+		for i, en := range c.fc.Ensures {
+			if strings.Contains(en.Expr, "verif") && !strings.Contains(en.Expr, "verifForall") {
+				continue
+			}
+			args := append(append(append([]string{}, names...), resNames...), oldNames...)
+			fmt.Fprintf(&sb, "\t\t\tif !%s(%s) {\n\t\t\t\tfmt.Printf(\"VERIF-REPLAY ensures%d=false // %s inputs=%%#v\\n\", []interface{}{%s})\n\t\t\t\treturn true\n\t\t\t}\n", en.Fn, strings.Join(args, ", "), i, strings.ReplaceAll(strings.ReplaceAll(en.Raw, "\"", "'"), "%", "%%"), strings.Join(fmtArgs, ", "))
+		}
+	}
+	sb.WriteString("\t\t\treturn false\n\t\t}()\n\t\tif failed {\n\t\t\tfmt.Printf(\"VERIF-REPLAY corpus tried=%d\\n\", tried)\n\t\t\treturn\n\t\t}\n")
+	for range lists {
+		sb.WriteString("\t}\n")
+	}
+	sb.WriteString("\tfmt.Printf(\"VERIF-REPLAY outcome=returned tried=%d\\n\", tried)\n}\n")
+	return sb.String()
 }
 
 func callArgs(sig *types.Signature, args []string) string {
